@@ -392,10 +392,20 @@ def run_property(hm, tier, seed):
 
     env(True)
     validation_runs = 0
+    # translator validation: the repository's own pinned tests must pass on the instrumented modules
+    tv = subprocess.run([_py(), os.path.join(VERIF, "tools", "validate_translator.py")], capture_output=True, text=True,
+                        env=dict(os.environ, PYTHONPATH=VERIF, PYTHONWARNINGS="ignore"))
+    tv_line = [l for l in tv.stdout.splitlines() if l.startswith("instrumented modules")]
+    if tv.returncode != 0 or not tv_line:
+        print("INCONCLUSIVE property=%s translator validation failed (repo unit tests on instrumented modules): %s" % (
+            pid, (tv.stdout + tv.stderr)[-400:]))
+        return EXIT_INCONCLUSIVE
+    print("  [%s] translator validation: %s" % (pid, tv_line[0]))
+    validation_runs += int(tv_line[0].split(":")[-1].split("/")[0])
     if hasattr(hm, "validate"):
         # concrete validation of the library models used by this harness (regex model, float format contract)
         n_val, bad = hm.validate()
-        validation_runs = n_val
+        validation_runs += n_val
         if bad:
             print("INCONCLUSIVE property=%s model validation failed: %r" % (pid, bad[:3]))
             return EXIT_INCONCLUSIVE
